@@ -128,6 +128,7 @@ func (w *FrameWorld) start() {
 	go func() {
 		buf := make([]byte, 70000)
 		zero := 0
+		transient := 0
 		for {
 			n, _, err := sc.ReadFrom(buf)
 			fr := frameRes{T: w.K.Now(), N: n, Err: err}
@@ -140,6 +141,12 @@ func (w *FrameWorld) start() {
 			}
 			w.results = append(w.results, fr)
 			w.K.Yield("frame:result", "rd")
+			if err != nil && errors.Is(err, errInjected) && transient < 64 {
+				// an injected read error (a deadline that expired between two segments, EINTR):
+				// the stream itself is intact, the application reads on
+				transient++
+				continue
+			}
 			if err != nil {
 				break
 			}
@@ -304,6 +311,9 @@ func (w *FrameWorld) check(final bool) {
 	}
 	okReads := 0
 	for i, r := range w.results {
+		if r.Err != nil && errors.Is(r.Err, errInjected) {
+			continue // transient: consumed nothing, the next read carries on
+		}
 		if r.Err != nil {
 			// an error is legitimate after FIN/RST, or at bytes that cannot start a frame
 			if !w.finSent && w.garbageAt < 0 {
